@@ -931,6 +931,40 @@ func (w *World) opDiffLinks(op *Op) {
 		if D > 0 && D*4 < len(setA)+len(setB) {
 			w.st.Probes["small-delta-in-big-tree"]++
 		}
+		// mixed provenance: one side opened through the world's shared cache (which may hold node
+		// objects this process wrote), the other cache-less. A cache can only save reads, so the
+		// same bound applies to what reaches the store.
+		if w.cache != nil && va != nil {
+			for _, mix := range []string{"old-cached", "new-cached", "both-cached"} {
+				var co, cn mast.NodeCache
+				if mix != "new-cached" {
+					co = asNodeCache(w.cache)
+				}
+				if mix != "old-cached" {
+					cn = asNodeCache(w.cache)
+				}
+				oldM, r1 := w.loadRoot(va.root, d, co, nil)
+				newM, r2 := w.loadRoot(vb.root, d, cn, nil)
+				if r1.bad() || r2.bad() {
+					w.failFor("C05", "reload-fails", "LoadMast: %s %s", r1, r2)
+					return
+				}
+				disk.BeginCall()
+				rr = guard(func() error {
+					return newM.DiffIter(ctx, oldM, func(a, r bool, k, av, rv interface{}) (bool, error) { return true, nil })
+				})
+				loadedMix, _, _, _ := disk.Window()
+				if rr.bad() {
+					w.failFor("C06", "diffiter-fails/"+rel, "DiffIter(%s, %s): %s", rel, mix, rr)
+					return
+				}
+				w.st.Probes["diff-cost-mixed-provenance"]++
+				if len(loadedMix) > bound {
+					w.fail("diffiter-reads-too-much/"+strings.Split(rel, "/")[0]+"/"+mix, "DiffIter with %s read %d distinct nodes from the store; versions differ in D=%d nodes (bound %d); versions have %d and %d nodes", mix, len(loadedMix), D, bound, len(setA), len(setB))
+					return
+				}
+			}
+		}
 	}
 }
 
